@@ -32,3 +32,8 @@ claim("C08", "DESIGN.md 5 C08, A.4",
  "Seeded search over notification histories (sequence numbers around 0, 2^23, 2^24-1; permuted, duplicated; inter-arrival times aimed at the 128 s window +-1 ns/1 ms on a fake clock), registration answers (2.05/2.03/4.04/5.00/no Observe option), 1-3 simultaneous observations, cancellation at any point and notifications for cancelled / failed / unknown tokens, on one real connection per run (UDP, DTLS shim, TCP, TLS shim). The callback log is compared after every event with an RFC 7641 3.4 reference model (plus message-ID de-duplication of confirmable copies on datagram transports). Evidence, not proof.",
  "Trusts the harness codec and the 30-line freshness model; notifications handed over while Observe or Cancel is still in progress are accepted either way; no notifications after a 2.05 without Observe option; block-wise notifications are C04's business.",
  "deterministic simulation: seeded history/time search with RFC 7641 freshness reference model over the callback log")
+
+claim("C20", "DESIGN.md 5 C20",
+ "The finite table {UDP CON, UDP NON, DTLS CON, TCP} x No-Response value 0..255 (every value the one-byte option can carry) x response code 0..255 is ENUMERATED COMPLETELY (262144 simulated runs) through a real server-side connection whose handler calls SetResponse(code), with a network duplicate of the request on datagram transports; refusal and the messages on the wire are compared with a specification function written from RFC 7967. Exhaustive over the table; nothing beyond the table is claimed.",
+ "Trusts the harness codec and the 3-line specification function; pion/dtls replaced by an ideal record layer; option values longer than one byte cannot reach a handler (the decoder drops them) and are out of scope.",
+ "deterministic simulation used as an exhaustive enumerator of a finite table through a simulated connection (schedule-independent)")
